@@ -60,7 +60,22 @@ pub fn reference_reads(inst: &Instance, hist: &[Act], delivered: &[usize]) -> (V
             }
         }
     };
+    // clock steps in a row while the read waits (only modelled without scripted writes: every suspension
+    // is then on the read half): when they add up to the documented timeout the read returns Err(Timeout)
+    let mut waited: u64 = 0;
     for a in hist {
+        match a {
+            Act::Tick => {
+                waited += super::world::TICK_SECS;
+                if inst.allow_timeout && !inst.script_writes && waited >= insim::net::DEFAULT_TIMEOUT_SECS {
+                    results.push("Err(Timeout)".to_string());
+                    waited = 0;
+                }
+                continue;
+            },
+            Act::ReadPending | Act::WritePending | Act::ReadStorm | Act::WriteStorm | Act::Resume => continue,
+            _ => waited = 0,
+        }
         match a {
             Act::Deliver(k) => {
                 // a transport may hand over fewer bytes than it has (the offered buffer clips it)
